@@ -37,9 +37,22 @@ class _Selector:
         self._loop = loop
 
     def select(self, timeout):
-        self._loop._advance(timeout)
-        if self._loop.stalls or self._loop._parked:
-            self._loop._postpone_stalled()
+        loop = self._loop
+        net = loop.net
+        if loop.stalls or loop._parked:
+            loop._postpone_stalled()
+        if net is not None:
+            ready = net.readable(loop.stalls)
+            if ready:
+                # data is waiting in socket buffers: select() returns at once, the clock does not move
+                return ready
+        loop._advance(timeout)
+        if loop.stalls or loop._parked:
+            loop._postpone_stalled()
+            if net is not None:
+                # a stall that has just ended leaves a backlog: it is read from this iteration on, one datagram per
+                # socket and iteration, while every timer that came due meanwhile fires in this very iteration
+                return net.readable(loop.stalls)
         return ()
 
     def close(self):
@@ -75,6 +88,7 @@ class SimLoop(asyncio.BaseEventLoop):
         self.set_task_factory(_task_factory)
         self.on_postpone = None
         self._postpone_seq = 0
+        self.net = None  # SimNet: owner of the socket buffers that select() looks at
 
     def is_running(self):
         return getattr(self, "force_running", False) or super().is_running()
@@ -152,7 +166,10 @@ class SimLoop(asyncio.BaseEventLoop):
 
     # --- BaseEventLoop plumbing ------------------------------------------
     def _process_events(self, event_list):
-        pass
+        # one read callback per readable socket, queued behind what is runnable already and ahead of the timers that
+        # are due - the order in which asyncio's selector loop runs them
+        for rsock in event_list:
+            self._ready.append(events.Handle(self.net.read_one, (rsock,), self, rsock.owner.new_context()))
 
     def _write_to_self(self):
         pass
